@@ -96,6 +96,10 @@ inductive Call where
   | prettyPrint (b : Bool)
   /-- response.go:77 `SetRequestAccepts(mime)`, reduced to the accessor it leads to -/
   | setAccept (a : Accessor)
+  /-- response.go:71 `AddHeader(name, value)` / `Header().Set|Add|Del(name, …)`: a change of the header map
+      the Response shares with the underlying writer (any name, `Content-Length` included, any value).
+      Neither the status nor the length bookkeeping reads that map, so the call carries no data. -/
+  | setHeader
   /-- response.go:222 -/
   | writeHeader (status : Nat)
   /-- response.go:238 `Write(bytes)`, `n = len(bytes)` -/
@@ -221,6 +225,7 @@ def headerAndEntityPlan (s : Settings) (status : Nat) (v : Marshalled) : Plan :=
 def Call.plan (s : Settings) : Call → Plan
   | .prettyPrint _ => ⟨[], false, []⟩
   | .setAccept _ => ⟨[], false, []⟩
+  | .setHeader => ⟨[], false, []⟩
   | .writeHeader st => ⟨[.hdr st], false, []⟩
   | .write n => ⟨[.wr n], false, []⟩
   | .writeErrorString st n => ⟨[.hdr st, .wr n], false, []⟩  -- response.go:204-205
@@ -301,6 +306,7 @@ def plannedPrims : Settings → List Call → List Prim
 def Call.tag (s : Settings) : Call → String
   | .prettyPrint _ => "pp"
   | .setAccept _ => "acc"
+  | .setHeader => "hd"
   | .writeHeader _ => "wh"
   | .write _ => "w"
   | .writeErrorString _ _ => "wes"
